@@ -31,6 +31,11 @@ CLAIMED = {
         note="Trusted: Lean kernel; hand model of DiameterAVP.load / DiameterMessage.load / typed re-construction tied by correspondence; Gen/Dictionary translator; DiameterURI data not modelled; known finding listed in known_findings.json (5 stable tests pin the re-flagging).",
         technique="Lean 4 proof (well-founded + mutual structural induction: decode(encode)=observe) + differential correspondence",
         design="4 C02"),
+    "C03": dict(
+        text="Lean: the decoders are DEFINED by well-founded recursion on the input length (termination obligations: each AVP iteration consumes >= 8 bytes, each message iteration >= 20); theorems for ALL byte strings: the result is messages or a library error, never a foreign exception; at most len/8 AVP objects over all nesting levels and len/20 messages (step/output bound); Message Length < 20 and truncated headers are rejected; one iteration of the receive worker keeps the thread alive and releases the association lock for every byte string. Tie: malformed corpus (all truncation points, length-field sweeps, bit flips, every dictionary class with out-of-domain data, garbage) through DiameterMessage.load / DiameterAVP.load under an iteration counter and alarm, and through one real iteration of recv_message_from_queue, compared with the model.",
+        note="Trusted: Lean kernel; hand model of the decoders and of the worker iteration tied by correspondence; watchdog (SIGALRM + line-event counter). State-machine reaction to misaddressed requests / malformed CER is part of C06 (tick totality). Heap use is bounded via the object-count theorem, not measured.",
+        technique="Lean 4 proof (well-founded recursion, strong induction on length) + malformed-input differential correspondence",
+        design="4 C03"),
 }
 
 NOT_YET = {
